@@ -1,0 +1,33 @@
+//go:build verif
+
+package lalr
+
+// Verification hooks for property C08 (runtime lookahead decision lists).
+// Add-only: exported wrappers around unexported functions, compiled only with -tags verif.
+
+// VerifNewLookaheadRule runs newLookaheadRule on a private copy of the alternatives
+// (the function permutes its argument in place).
+// errKind: "" on success, otherwise "inconsistent", "ambiguous", "undecidable" or "other:<msg>".
+func VerifNewLookaheadRule(alts []Lookahead) (rule LookaheadRule, errKind string) {
+	in := make([]Lookahead, len(alts))
+	copy(in, alts)
+	rule, err := newLookaheadRule(in)
+	if err == nil {
+		return rule, ""
+	}
+	switch err.Error() {
+	case "inconsistent order":
+		return LookaheadRule{}, "inconsistent"
+	case "ambiguous order":
+		return LookaheadRule{}, "ambiguous"
+	case "cannot decide on the next lookahead":
+		return LookaheadRule{}, "undecidable"
+	}
+	return LookaheadRule{}, "other:" + err.Error()
+}
+
+// VerifGotoState exposes DefaultEnc.gotoState (used to walk the tables to the states whose
+// reductions were merged into a runtime lookahead rule).
+func VerifGotoState(t *Tables, state, symbol int) int {
+	return t.DefaultEnc.gotoState(state, symbol)
+}
